@@ -302,7 +302,7 @@ def writeToPipe : Nat → Nat → Nat → Bool → NetM Bool
   | 0, _, _, _ => throw .diverge
   | f + 1, toNode, toPipe, isMulticast => do
     let n ← getNode
-    if toNode = n.a.addr then return (← enqueueFrameBuf)
+    if toNode = n.a.addr ∧ !isMulticast then return (← enqueueFrameBuf)
     liftRf (Rf24.setAutoAckAttr (.i (0x3E + (if isMulticast then 0 else 1))))
     liftRf (Rf24.setListen false)
     let addr ← pipeAddr toNode toPipe
